@@ -70,6 +70,7 @@ type GenPool struct {
 	Schema       string
 	FaultySchema []string
 	Variants     []string // loadable siblings: same names, other relations/members/fields
+	FaultyCuts   [][]int  // per faulty variant: offsets at which other faulty definitions start (may be empty)
 	Docs         []string
 }
 
@@ -94,7 +95,9 @@ func GenPoolFor(r *Rng, nFaulty, nVariants, nDocs, faultyDocsIn10 int) *GenPool 
 		if r.Chance(1, 2) {
 			order = r.U64() // same definitions, other textual order
 		}
-		p.FaultySchema = append(p.FaultySchema, f.Render(NewRng(order)))
+		ft, cuts := f.RenderMarked(NewRng(order), r.Chance(1, 2))
+		p.FaultySchema = append(p.FaultySchema, ft)
+		p.FaultyCuts = append(p.FaultyCuts, cuts)
 		bump(&probes.genFaultySch)
 		noteFaults(prefixAll("schema:", f.Faults))
 	}
